@@ -3,9 +3,7 @@ package rules
 import (
 	"fmt"
 	"go/ast"
-	"go/parser"
 	"go/token"
-	"os"
 	"path/filepath"
 	"regexp"
 	"sort"
@@ -27,26 +25,27 @@ import (
 func checkBenchmarkSplits(c *core.Ctx) {
 	st := c.Rule("R18.7", "running on several GPUs computes every element the single-GPU run computes: in amd/benchmarks, a function that divides a work size by the number of GPUs / queues (total / len(b.gpus), total / numGPUs, ...) to obtain a per-GPU share also handles the remainder of that division in the same function (a % by the GPU count, a ceiling division (total + n - 1) / n, a share formed as the difference of two scaled offsets, a share that is incremented after the division, or a special case for the last GPU index); otherwise total mod n elements are never computed on n GPUs", 6)
 	gpuCount := regexp.MustCompile(`(?i)^(uint32|uint64|int64|int32|int|uint)?\(?len\((b\.)?(gpus|queues|gpuids|gpuIDs)\)\)?$|^(b\.)?num_?gpus?$|^(uint32|uint64|int64|int|uint)\((b\.)?num_?gpus?\)$`)
-	root := filepath.Join(core.RepoDir, "amd", "benchmarks")
-	var files []string
-	filepath.Walk(root, func(path string, info os.FileInfo, err error) error {
-		if err == nil && !info.IsDir() && strings.HasSuffix(path, ".go") && !strings.HasSuffix(path, "_test.go") {
-			files = append(files, path)
-		}
-		return nil
-	})
-	sort.Strings(files)
-	fset := token.NewFileSet()
-	for _, f := range files {
-		src, err := os.ReadFile(f)
-		if err != nil || !(strings.Contains(string(src), "gpus") || strings.Contains(string(src), "GPUs") || strings.Contains(string(src), "queues")) {
+	c.Load("./amd/benchmarks/...")
+	type unit struct {
+		af  *ast.File
+		rel string
+	}
+	var units []unit
+	for _, p := range c.RepoPkgs() {
+		if !strings.HasPrefix(core.RelPkg(p.PkgPath), "amd/benchmarks") {
 			continue
 		}
-		af, err := parser.ParseFile(fset, f, src, 0)
-		if err != nil {
-			continue
+		for i, f := range p.Syntax {
+			if i < len(p.CompiledGoFiles) && !strings.HasSuffix(p.CompiledGoFiles[i], "_test.go") {
+				rel, _ := filepath.Rel(core.RepoDir, p.CompiledGoFiles[i])
+				units = append(units, unit{f, rel})
+			}
 		}
-		rel, _ := filepath.Rel(core.RepoDir, f)
+	}
+	sort.Slice(units, func(i, j int) bool { return units[i].rel < units[j].rel })
+	fset := c.Fset
+	for _, u := range units {
+		af, rel := u.af, u.rel
 		for _, d := range af.Decls {
 			fd, ok := d.(*ast.FuncDecl)
 			if !ok || fd.Body == nil {
